@@ -5,7 +5,7 @@
    state: [lens]), an index loop over a list that rewrites the current element, a
    read-only loop as a fold. *)
 From Coq Require Import List Arith Bool NArith ZArith Lia.
-From Pcfg Require Import KernelRt OmenSpec OmenTrainer OmenTrainerRt.
+From Pcfg Require Import KernelRt OmenSpec OmenLevel OmenTrainer OmenTrainerRt.
 Import ListNotations.
 
 (* ------------------------------------------------------------------ *)
@@ -316,4 +316,75 @@ Lemma tfor_forallb {X R : Type} (p : X -> bool) (body : X -> unit -> tres (ctl R
 Proof.
   intros Hb cont. induction l as [|x l IH]; simpl; [reflexivity|].
   rewrite Hb. destruct (p x); simpl; [exact IH | reflexivity].
+Qed.
+
+(* ------------------------------------------------------------------ *)
+(* loops that only append to a text                                     *)
+
+Lemma tfor_append {X R : Type} (g : X -> ostr) (body : X -> ostr -> tres (ctl R ostr)) l :
+  (forall x file, In x l -> body x file = TOk (Continue (file ++ g x))) ->
+  forall file (cont : ostr -> tres R), tfor l body file cont = cont (file ++ flat_map g l).
+Proof.
+  induction l as [|x l IH]; intros Hb file cont; simpl.
+  - rewrite app_nil_r. reflexivity.
+  - rewrite Hb by (left; reflexivity). rewrite IH by (intros; apply Hb; right; assumption).
+    rewrite app_assoc. reflexivity.
+Qed.
+
+Lemma ttry_continue {R St : Type} (s : St) catches handler (k : St -> tres R) :
+  ttry (TOk (Continue s)) catches handler k = k s.
+Proof. reflexivity. Qed.
+
+(* ------------------------------------------------------------------ *)
+(* the table view of a smoothed object                                  *)
+
+Lemma omapM_Forall2 {X Y} (f : X -> option Y) l ys :
+  omapM f l = Some ys -> Forall2 (fun x y => f x = Some y) l ys.
+Proof.
+  revert ys. induction l as [|x l IH]; simpl; intros ys H.
+  - inversion H. constructor.
+  - destruct (f x) eqn:E; [|discriminate]. destruct (omapM f l); [|discriminate]. inversion H.
+    constructor; [exact E | apply IH; reflexivity].
+Qed.
+
+Lemma Forall2_in_l {X Y} (P : X -> Y -> Prop) l ys x : Forall2 P l ys -> In x l -> exists y, In y ys /\ P x y.
+Proof.
+  induction 1; simpl; [tauto|]. intros [->|H1]; [eauto|]. destruct (IHForall2 H1) as (y' & ? & ?). eauto.
+Qed.
+
+Lemma level_nat_inv z n : level_nat z = Some n -> z = Z.of_nat n.
+Proof.
+  unfold level_nat. destruct (z <? 0)%Z eqn:E; [discriminate|]. intro H. inversion H.
+  apply Z.ltb_ge in E. lia.
+Qed.
+
+Lemma leaf_level_inv v n : leaf_level v = Some n -> exists c, v = NLevel (Z.of_nat n) c.
+Proof.
+  destruct v as [c|l c]; simpl; [discriminate|]. intro H. apply level_nat_inv in H. subst. eauto.
+Qed.
+
+Lemma tentry_of_inv k e te : tentry_of (k, e) = Some te ->
+  te_key te = k /\ ge_ip_level e = Some (Z.of_nat (te_ip te)) /\ ge_ep_level e = Some (Z.of_nat (te_ep te)) /\
+  Forall2 (fun cv cl => fst cl = fst cv /\ exists c, snd cv = NLevel (Z.of_nat (snd cl)) c) (ge_next e) (te_next te).
+Proof.
+  unfold tentry_of. simpl fst. simpl snd.
+  destruct (ge_ip_level e) as [il|]; [|discriminate]. destruct (ge_ep_level e) as [el|]; [|discriminate].
+  destruct (level_nat il) as [i|] eqn:Ei; [|discriminate]. destruct (level_nat el) as [p|] eqn:Ep; [|discriminate].
+  destruct (omapM _ (ge_next e)) as [nx|] eqn:En; [|discriminate]. intro H. inversion H. simpl.
+  apply level_nat_inv in Ei. apply level_nat_inv in Ep. subst il el. repeat split.
+  apply omapM_Forall2 in En. clear -En. induction En as [|cv cl l l' H0 _ IH]; constructor; [|exact IH].
+  destruct (leaf_level (snd cv)) as [n|] eqn:El; simpl in H0; [|discriminate]. inversion H0. simpl.
+  split; [reflexivity|]. apply leaf_level_inv. exact El.
+Qed.
+
+Lemma ttab_of_inv A T : ttab_of A = Some T ->
+  Forall2 (fun x y => tentry_of x = Some y) (al_grammar A) (tt_grammar T) /\
+  Forall2 (fun v n => exists c, v = NLevel (Z.of_nat n) c) (al_ln_lookup A) (tt_ln T) /\
+  tt_ngram T = Z.to_nat (al_ngram A) /\ tt_min_len T = Z.to_nat (al_min_length A) /\ tt_max_len T = Z.to_nat (al_max_length A).
+Proof.
+  unfold ttab_of. destruct (omapM tentry_of (al_grammar A)) as [g|] eqn:Eg; [|discriminate].
+  destruct (omapM leaf_level (al_ln_lookup A)) as [ln|] eqn:El; [|discriminate].
+  intro H. inversion H. simpl. repeat split.
+  - apply omapM_Forall2. exact Eg.
+  - apply omapM_Forall2 in El. clear -El. induction El; constructor; [apply leaf_level_inv; assumption | assumption].
 Qed.
